@@ -243,10 +243,10 @@ theorem takeWhile_digits_append (ds : Str) (hd : allDigits ds = true) (r : Str)
   | nil =>
     cases r with
     | nil => simp
-    | cons c r' => simp [List.takeWhile, List.dropWhile, hr c r' rfl]
+    | cons c r' => simp [hr c r' rfl]
   | cons c cs ih =>
     rw [allDigits_cons, Bool.and_eq_true] at hd
-    simp [List.takeWhile, List.dropWhile, hd.1, ih hd.2]
+    simp [hd.1, ih hd.2]
 
 theorem css2Frac_of_ne (c : Nat) (r : Str) (h : c ≠ 46) : css2Frac (c :: r) = ([], c :: r, true) := by
   unfold css2Frac
